@@ -195,6 +195,7 @@ def run(tier):
     c02.PROP = PROP
     ck.rule = ("S->I: family M = 10 force fields (no link, chain links that leave pairs with B unlinked, star links, an [ edges ]-only link, a bond that "
                "makes no edge, atom removal after linking, removal of the linking atom) x all connected residue graphs on 1-4 residues x names {A,B}^n, "
+               "family N = 5 of them x graphs on <= 3 residues (all-A graphs with <= 4 edges on 4) x every non-identity assignment of residue ids to node keys, "
                "plus families B (link features) and E (dangling .itp); a case is non-trivial if some but not all residue edges are missing. "
                "I->S: seeded random cases with 5-7 residues through gen_params, warnings parsed; distinct = record with an applied link")
     ck.assumptions = ["the gate is asserted for disconnection at residue level only; atoms disconnected inside one residue are accepted by design",
@@ -204,6 +205,8 @@ def run(tier):
     rng = random.Random(sd + 10)
     ck.stage("TLC: models, sensitivity runs, exports")
     jobs = [("export_M", "MC_Links", "Lk_export_M.cfg", 4, {}), ("export_B", "MC_Links", "Lk_export_B.cfg", 3, {}), ("export_E", "MC_Links", "Lk_export_E.cfg", 2, {}),
+            ("export_N", "MC_Links", "Lk_export_N.cfg", 3, {}), ("modelN", "MC_Links", "Lk_small_N.cfg", 2, {}),
+            ("dev_OrderedPairs", "MC_Links", "Lk_dev_OrderedPairs.cfg", 1, {"check": False}),
             ("missing", "MC_Links", "Lk_missing.cfg", 2, {}), ("modelM", "MC_Links", "Lk_small_M.cfg", 3, {}),
             ("devfams", "MC_Links", "Lk_devfams.cfg", 1, {"coverage": True}),
             ("dev_Degree", "MC_Links", "Lk_dev_Degree.cfg", 1, {"check": False}), ("dev_missing", "MC_Links", "Lk_missing_dev.cfg", 1, {"check": False})]
@@ -217,10 +220,12 @@ def run(tier):
     ck.model_must_hold(results["devfams"], "sensitivity families without deviation")
     if not results["devfams"].coverage().get("FindMissing"):
         raise c.MachineryError("action FindMissing never taken")
+    ck.model_must_hold(results["modelN"], "MissingIsExpected/BondXorMissing with node keys that are a permutation of the residue ids")
+    ck.model_must_refute(results["dev_OrderedPairs"], "MissingIsExpected", "independent seed C10-2: joined residue pairs compared as ordered pairs")
     ck.model_must_refute(results["dev_Degree"], "MissingIsExpected", "degree filter compares the wrong way (m12), after link application")
     ck.model_must_refute(results["dev_missing"], "MissingIsExpected", "degree filter compares the wrong way (m12), arbitrary edge sets")
     quick = tier == "quick"
-    for fam, n_proc, n_gp in (("M", 2500 if quick else None, 260 if quick else 3000), ("B", 500 if quick else None, 80 if quick else 800),
+    for fam, n_proc, n_gp in (("M", 2500 if quick else None, 260 if quick else 3000), ("N", 1200 if quick else None, 200 if quick else 2000), ("B", 500 if quick else None, 80 if quick else 800),
                               ("E", 200 if quick else None, 60 if quick else 680)):
         ck.stage("replay family %s" % fam)
         res = results["export_" + fam]
